@@ -718,6 +718,10 @@ func genC07(out *Out, r *Rng, tier string, n int, shard int) {
 			emitBJJ(out, r, f, i%2 == 1)
 		}
 	}
+	// (after the bundles, so that their stream for a given seed stays what it was) status-registry scenes, c07.go
+	for i := 0; i < 2*n; i++ {
+		emitRegistryScenes(out, r, i%2 == 1)
+	}
 }
 
 func init() { gens["C07"] = genC07 }
